@@ -415,8 +415,9 @@ func (c *DefaultCtx) Cookie(cookie *Cookie) {
 	fcookie.SetKey(headerSafe(cookie.Name))
 	fcookie.SetValue(headerSafe(cookie.Value))
 	fcookie.SetPath(headerSafe(cookie.Path))
-	if p := fcookie.Path(); bytes.IndexByte(p, '\r') != -1 || bytes.IndexByte(p, '\n') != -1 {
-		// fasthttp percent-decodes the path: "%0d%0a" must not become a line break either
+	// fasthttp percent-decodes the path: "%0d%0a" must not become a line break either, and
+	// setting the cleaned path decodes once more ("%250d"), so repeat until it is stable
+	for p := fcookie.Path(); bytes.IndexByte(p, '\r') != -1 || bytes.IndexByte(p, '\n') != -1; p = fcookie.Path() {
 		fcookie.SetPath(headerSafe(string(p)))
 	}
 	fcookie.SetDomain(headerSafe(cookie.Domain))
